@@ -345,7 +345,8 @@ static void init_var_value(int c, int v)
                 for (int i = 0; i < wv->size; i++) tmp[i] = (uint8_t)(0x10 * (i + 1) + v + W.var_init);
                 break;
         case CAT_VAR_BUF_STRING:
-                for (int i = 0; i + 1 < wv->size && i < 2; i++) tmp[i] = (uint8_t)('p' + i + v);
+                /* contents that need every escape when formatted: letter, LF, quote, backslash (as far as the size allows) */
+                { static const uint8_t pat[4] = {'p', '\n', '"', '\\'}; for (int i = 0; i + 1 < wv->size && i < 4; i++) tmp[i] = (i == 0) ? (uint8_t)('p' + v) : pat[i]; }
                 break;
         }
         if (wv->access == CAT_VAR_ACCESS_WRITE_ONLY && W.wo_fill) {
@@ -493,7 +494,8 @@ static int io_write(char ch)
 {
         lock_required("io write");
         L.writes_attempted++;
-        if (W.refuse_write && mcx_choose(2) == 1) { L.writes_refused++; return 0; }
+        /* refuse_write: 1 = refusals return 0; 2 = refusals return -1; 3 = refusals return 2 (cat.h: only 1 means written) */
+        if (W.refuse_write && mcx_choose(2) == 1) { L.writes_refused++; return W.refuse_write == 2 ? -1 : W.refuse_write == 3 ? 2 : 0; }
         L.writes_accepted++;
         if (L.out_n < (int)sizeof L.out) L.out[L.out_n++] = (uint8_t)ch;
         if (I.out_n < (int)sizeof I.out) I.out[I.out_n++] = (uint8_t)ch;
@@ -562,7 +564,12 @@ static int pick_code(int evt, int kind, int *nonterm_left)
 /* optional side effects from inside a handler (no mutex configured) */
 static void handler_side_effects(int evt)
 {
-        if (W.use_mutex) return;
+        if (W.use_mutex) {
+                /* the two query functions documented as lock-free may be called from inside callbacks */
+                if (W.nev > 0) (void)cat_is_unsolicited_event_buffered(I.obj, &I.cmds[W.ev[0].cmd], CAT_CMD_TYPE_NONE);
+                (void)cat_get_processed_command(I.obj, CAT_FSM_TYPE_UNSOLICITED);
+                return;
+        }
         if (!evt && W.h_trigger && W.nev > 0 && (W.trig_budget == 0 || I.S->trig_left > 0)) {
                 int c = mcx_choose(W.nev + 1);
                 if (c > 0) { L.nonquiet = 1; do_trigger(c - 1, 1); }
@@ -686,36 +693,52 @@ static int v_read(const struct cat_variable *var)
  * shared between parser objects shows up as a disagreement of the first object with the reference */
 
 static struct cat_object B_obj;
-static struct cat_command B_cmds[5];
+static struct cat_command B_cmds[6];
 static struct cat_command_group B_g0, B_g1, *B_groups[2];
 static struct cat_descriptor B_desc;
 static uint8_t B_buf[16];
-static struct cat_variable B_var;
-static uint8_t B_val;
-static const char B_stream[] = "ATQA\nATQ\nATQE?\nATQC=1\nATQ\rD\r\n";
-static int B_pos;
-static int B_read(char *ch) { *ch = B_stream[B_pos]; B_pos = (B_pos + 1) % (int)(sizeof B_stream - 1); return 1; }
+static struct cat_variable B_var, B_svar;
+static uint8_t B_val, B_sval[4];
+static const char B_stream[] = "ATQA\nATQ\nATQE?\nATQC=1\nATQB\nATQ\rD\r\nATQC=7\nATQS=\"ab\"\nATQS?\n";
+static int B_pos, B_gate;
+/* mode 1: one cat_service call of B per call of the object under test; mode 2: one whole line of B's stream (gate closes after its LF) */
+static int B_read(char *ch)
+{
+        if (W.interfere == 2 && !B_gate) return 0;
+        *ch = B_stream[B_pos]; B_pos = (B_pos + 1) % (int)(sizeof B_stream - 1);
+        if (*ch == '\n') B_gate = 0;
+        return 1;
+}
 static int B_write(char ch) { (void)ch; return 1; }
-static cat_return_state B_run(const struct cat_command *c) { (void)c; return CAT_RETURN_STATE_OK; }
+static cat_return_state B_run(const struct cat_command *c) { return (c->name[1] == 'B') ? CAT_RETURN_STATE_PRINT_CMD_LIST_OK : CAT_RETURN_STATE_OK; }
 static struct cat_io_interface B_io = {.write = B_write, .read = B_read};
 
 static void interfere_init(void)
 {
         memset(&B_obj, 0, sizeof B_obj);
         B_var = (struct cat_variable){.type = CAT_VAR_UINT_DEC, .data = &B_val, .data_size = 1, .access = CAT_VAR_ACCESS_READ_WRITE};
-        static const char *nm[5] = {"QA", "QB", "QC", "QDD", "QE"};
-        for (int i = 0; i < 5; i++) B_cmds[i] = (struct cat_command){.name = nm[i], .run = B_run, .var = (i == 2 || i == 4) ? &B_var : NULL, .var_num = (i == 2 || i == 4) ? 1 : 0};
+        B_svar = (struct cat_variable){.type = CAT_VAR_BUF_STRING, .data = B_sval, .data_size = sizeof B_sval, .access = CAT_VAR_ACCESS_READ_WRITE};
+        static const char *nm[6] = {"QA", "QB", "QC", "QDD", "QE", "QS"};
+        for (int i = 0; i < 6; i++) B_cmds[i] = (struct cat_command){.name = nm[i], .run = B_run, .var = (i == 2 || i == 4) ? &B_var : i == 5 ? &B_svar : NULL, .var_num = (i == 2 || i >= 4) ? 1 : 0};
         B_g0 = (struct cat_command_group){.cmd = &B_cmds[0], .cmd_num = 2};
-        B_g1 = (struct cat_command_group){.cmd = &B_cmds[2], .cmd_num = 3};
+        B_g1 = (struct cat_command_group){.cmd = &B_cmds[2], .cmd_num = 4};
         B_groups[0] = &B_g0; B_groups[1] = &B_g1;
         B_desc = (struct cat_descriptor){.cmd_group = B_groups, .cmd_group_num = 2, .buf = B_buf, .buf_size = sizeof B_buf};
-        B_pos = 0; B_val = 0;
+        B_pos = 0; B_val = 0; B_gate = 0; memset(B_sval, 0, sizeof B_sval);
         cat_init(&B_obj, &B_desc, &B_io, NULL);
 }
 
 static void interfere_tick(void)
 {
-        cat_service(&B_obj);
+        if (W.interfere == 2) {
+                /* B receives, processes and answers one whole line between two calls of the object under test */
+                B_gate = 1;
+                int quiet = 0;
+                for (int k = 0; k < 4000 && quiet < 2; k++) quiet = (cat_service(&B_obj) == CAT_STATUS_OK && !B_gate) ? quiet + 1 : 0;
+                if (quiet < 2) mcx_fatal("interferer did not finish its line");
+        } else {
+                cat_service(&B_obj);
+        }
         (void)cat_search_command_by_name(&B_obj, "QE");
 }
 
